@@ -831,6 +831,7 @@ func genChain(c *Ctx) {
 	// (checked a moment later, within the same second) and an expiration at a whole second E, checked before E and
 	// a quarter of a second after it (this group sleeps for up to 2.3 s)
 	{
+		var stillAhead func() bool // when set: the case only counts if it holds after the call (a stalled process proves nothing)
 		clockCase := func(tag string, dopts []delegation.Option, iopts []invocation.Option, nbfNs, expNs, iexpNs W) {
 			dopts = append(dopts, delegation.WithSubject(dids[1]))
 			d, err := delegation.New(dids[1], dids[0], command.Command("/"), nil, dopts...)
@@ -843,6 +844,9 @@ func genChain(c *Ctx) {
 				return
 			}
 			allowed := inv.ExecutionAllowed(mapLoader{ci: d}) == nil
+			if stillAhead != nil && !stillAhead() {
+				return
+			}
 			storeW := WList(WList(WBytes(ci.Bytes()), WMap(KV{"iss", didW(dids, 1)}, KV{"aud", didW(dids, 0)}, KV{"sub", didW(dids, 1)},
 				KV{"cmd", WStr("/")}, KV{"pol", WList()}, KV{"nbf", nbfNs}, KV{"exp", expNs})))
 			invW := WMap(KV{"iss", didW(dids, 0)}, KV{"sub", didW(dids, 1)}, KV{"aud", WStr("")}, KV{"cmd", WStr("/a")},
@@ -856,8 +860,10 @@ func genChain(c *Ctx) {
 		clockCase("chain/clock/nbf-now", []delegation.Option{delegation.WithNotBeforeIn(0)}, nil, WInt(-1000), WNull, WNull)
 		clockCase("chain/clock/nbf-now", []delegation.Option{delegation.WithNotBeforeIn(-time.Millisecond)}, nil, WInt(-1000000), WNull, WNull)
 		E := time.Now().Truncate(time.Second).Add(2 * time.Second)
+		stillAhead = func() bool { return time.Until(E) > 200*time.Millisecond }
 		clockCase("chain/clock/exp-ahead", []delegation.Option{delegation.WithExpiration(E)}, nil, WNull, WInt(int64(time.Second)), WNull)
 		clockCase("chain/clock/exp-ahead", nil, []invocation.Option{invocation.WithExpiration(E)}, WNull, WNull, WInt(int64(time.Second)))
+		stillAhead = nil
 		dE, errD := delegation.New(dids[1], dids[0], command.Command("/"), nil, delegation.WithSubject(dids[1]), delegation.WithExpiration(E))
 		ci := fakeCid(0)
 		invE, errI := invocation.New(dids[0], dids[1], command.Command("/a"), []cid.Cid{ci}, invocation.WithExpiration(E))
